@@ -28,6 +28,7 @@ def run(tier, replay):
         mid = [(1, 2 * 4096 + 100), (2, 4 * 4096 + 5)] if tier == "quick" else [(1, 2 * 4096 + 100), (2, 4 * 4096 + 5), (3, 6 * 4096), (4, 5 * 4096 - 1)]
         for T, n in mid:
             jobs.append((exe256, ["rt", T, n, n, 1, "all"]))
+        jobs += [(exe, ["ivclass", T]) for T in (1, 2)]      # seeds whose first IV ends in F9..FE / FF / FFFF (counter carries in the first blocks of every stream)
         with cf.ThreadPoolExecutor(8) as ex:
             parts = list(ex.map(lambda j: wv.record(res, PID + "/j%d" % j[0], [j[1]]), enumerate(jobs)))
         events = []
